@@ -97,10 +97,16 @@ def evalLayout (cfg : Cfg) (es : InEdges) (obs : Json) : E Verdict := do
     v := v.add "C13" (drawingCrossings o == 0) s!"tree drawn with {drawingCrossings o} crossings"
   -- C14 first half
   if cfg.p1 == 1 then v := v.add "C14" (c14_minimal o) "reversed-set-not-minimal"
-  -- C10: per traced component, the cut values of the final tree certify the layering
+  -- C10: per traced component; the budget proviso is decided by the pivot count the hook reports
   if cfg.p2 == 0 then
     if let some cs := fieldOpt obs "comps" then
-      for comp in ← jArr cs do
+      let pivots ← match fieldOpt obs "pivots" with
+        | some p => jArr p
+        | none => pure []
+      let better ← match fieldOpt obs "better" with
+        | some p => jArr p
+        | none => pure []
+      for (comp, ci) in (← jArr cs).zipIdx do
         for st in ← jArr comp do
           match ← jArr st with
           | [stage, snap] =>
@@ -110,12 +116,27 @@ def evalLayout (cfg : Cfg) (es : InEdges) (obs : Json) : E Verdict := do
                 let es := g.elist.map fun i =>
                   let e := g.edge i
                   ({ src := e.src, dst := e.dst, w := e.weight, d := e.delta, x := if e.tree then e.cut else 0 } : WeakDuality.E)
-                let exhausted := g.elist.any fun i => (g.edge i).tree && (g.edge i).cut < 0
+                let exhausted : Bool ← match pivots[ci]? with
+                  | some (.arr #[p, m]) => do pure (decide ((← p.getInt?) ≥ (← m.getInt?)))
+                  | _ => pure false
                 let contiguous := g.layers.toList.all fun l => !l.nodes.isEmpty
+                let y := fun i => (g.node i).layer
+                v := v.add "C10" contiguous "empty band between used ones"
                 if exhausted then v := v.skip "C10" "iteration budget exhausted"
                 else
-                  v := v.addAll "C10" [("optimality-certificate", certOK es (fun i => (g.node i).layer) g.nodes.size),
-                                       ("contiguous-bands", contiguous)]
+                  -- search result of the harness (max closure), re-validated here: feasible and strictly shorter
+                  match better[ci]? with
+                  | some (.arr ls) =>
+                    let y' ← ls.toList.mapM (·.getInt?)
+                    let yf := fun i => y'.getD i 0
+                    let feas := es.all fun e => decide (e.d ≤ yf e.dst - yf e.src)
+                    let c0 := WeakDuality.cost y es
+                    let c1 := WeakDuality.cost yf es
+                    if feas && c1 < c0 then
+                      v := v.add "C10" false s!"total edge length {c0}, but a feasible layering of length {c1} exists: {y'}"
+                    else v := v.add "C10" true
+                  | _ => v := v.add "C10" true
+                  v := v.add "K:ns-certificate" (certOK es y g.nodes.size) "cut values of the final tree do not certify optimality"
           | _ => throw "bad stage"
   -- correspondence of the models with the traced run
   if let some cs := fieldOpt obs "comps" then
